@@ -601,6 +601,10 @@ func (s *scen) deliver(b *rBlock) string {
 		s.tieFail("tie-unexpected-refusal", "block refused for a reason outside the model: "+out)
 		return out
 	}
+	if out == "toodeep" && !refTooDeep {
+		s.propFail("refused-fork-within-the-window", fmt.Sprintf("block #%d (height %d, %d below the tip) was refused as hooking too deep although it is less than %d below the tip: the node can never follow that branch, however much work it gathers", b.idx, b.Height, int(prevH)-int(b.Height), movingCheckpointDepth))
+		return out
+	}
 	if s.bulk && s.step%97 != 0 {
 		tipHex, _ := s.k.Tip()
 		f := strings.Fields(rep)
